@@ -799,9 +799,13 @@ pub async fn acquire_key(base_url: &Uri) -> Result<Key> {
             KeyAction::Acquire
         ))));
     }
-    // the key id becomes the name of the key file inside the key folder: an empty id or one that
+    // the key id becomes the name of the key file inside the key folder: an empty id, "." or one that
     // holds a path would put the file (and the key) outside of that folder
-    if key.guid.is_empty() || key.guid.contains(['/', '\\']) || key.guid.contains("..") {
+    if key.guid.is_empty()
+        || key.guid == "."
+        || key.guid.contains(['/', '\\'])
+        || key.guid.contains("..")
+    {
         return Err(Error::Key(KeyErrorType::ParseKeyResponse(format!(
             "{}",
             KeyAction::Acquire
